@@ -599,6 +599,9 @@ fn run_root(args: &Args, b: &Batch, ri: usize, st: &mut Stats) {
                         signature.insert(k.to_string(), v.as_str().map(|s| s.to_string()).unwrap_or_else(|| v.to_string()));
                     }
                 }
+                for fl in checks::data::reach_flags(&b.uni, &root.ty) {
+                    signature.insert(format!("reaches_{}", fl), "true".into());
+                }
                 let xs = if x.leaf_count() > 2000 { json!({"vec_u8_len": x.l().len()}) } else { json!(x) };
                 let replay = json!({
                     "kind": "bytes_case", "property": prop, "batch": b.name, "root_index": ri, "root_ty_ir": root.ty, "root_type": b.uni.rust_ty(&root.ty, ""),
